@@ -302,6 +302,7 @@ def fam_mev(sid, ids, with_av, rng, cfg):
 
 
 def fam_nested(sid, ids, nests, with_av, rng, cfg, prop):
+    zenv = {}
     alone = [i for i in ids if not any(i in n for n in nests)]
     s = Shape(sid, 'nested', {'ids': ids, 'nests': nests, 'alone': alone, 'av': with_av})
     V, av, ch = leaves(ids, with_av)
@@ -372,6 +373,19 @@ def fam_nested(sid, ids, nests, with_av, rng, cfg, prop):
             return NestsForCrossNestedLogit(list(ids), tuple(
                 OneNestForCrossNestedLogit(mus[m], {i: (1.0 if i in n else 0.0) for i in ids if (i in n or (zeros and any(i in o for o in nests)))})
                 for m, n in enumerate(nests)))
+        # allocations given as PARAMETERS: when the model is built every nested alternative sits (value 1) in the NEXT nest and has
+        # allocation 0 in its own; at the evaluation points the values are exchanged, so the model must be the nested logit again
+        zenv = {}
+        if len(nests) >= 2:
+            zal = [dict() for _ in nests]
+            for m, n in enumerate(nests):
+                o = (m + 1) % len(nests)
+                for i in n:
+                    zal[m][i] = B(f'Z{m + 1}_{i}', 0.0)
+                    zal[o][i] = B(f'Z{o + 1}_{i}', 1.0)
+                    zenv[f'Z{m + 1}_{i}'], zenv[f'Z{o + 1}_{i}'] = 1.0, 0.0
+            s.tree('P@cnl01b', lambda: models.cnl(V, av, NestsForCrossNestedLogit(list(ids), tuple(
+                OneNestForCrossNestedLogit(mus[m], dict(zal[m])) for m in range(len(nests)))), ch))
         s.tree('P@cnl01', lambda: models.cnl(V, av, cn01(False), ch))
         s.tree('logP@cnl01', lambda: models.logcnl(V, av, cn01(False), ch))
         s.tree('P_mu@cnl01', lambda: models.cnlmu(V, av, cn01(False), ch, MU))
@@ -383,6 +397,7 @@ def fam_nested(sid, ids, nests, with_av, rng, cfg, prop):
             env = base_env(ids, rng, pat)
             env['MU'] = mu_value(rng)
             env.update({f'MU{m + 1}': mu_value(rng) for m in range(len(nests))})
+            env.update(zenv if prop == 'C06' else {})
             s.evaluate(env, ids, engine=(k in eng_pats(cfg, rng, with_av, len(ids)) and r == 0))
         if prop == 'C06' and k < 3:
             # reductions: all nest parameters one; scale one
@@ -390,11 +405,13 @@ def fam_nested(sid, ids, nests, with_av, rng, cfg, prop):
             env['MU'] = 1.0
             env.update({f'MU{m + 1}': mu_value(rng) for m in range(len(nests))})
             env['_tag'] = 'mu=1'
+            env.update(zenv)
             s.evaluate(env, ids, engine=(k == 0))
             env = base_env(ids, rng, pat)
             env['MU'] = 1.0
             env.update({f'MU{m + 1}': 1.0 for m in range(len(nests))})
             env['_tag'] = 'all-one'
+            env.update(zenv)
             s.evaluate(env, ids, engine=(k == 0))
     return s
 
@@ -405,7 +422,11 @@ def fam_cnl(sid, ids, nests, with_av, rng, cfg, prop):
     V, av, ch = leaves(ids, with_av)
     MU = B('MU', 1.0)
     mus = [B(f'MU{m + 1}', 1.0) for m in range(len(nests))]
-    al = [{i: B(f'A{m + 1}_{i}', 1.0) for i in n} for m, n in enumerate(nests)]
+    # membership parameters are expressions evaluated LATER at other values: the first membership of an alternative that sits in
+    # several nests has the value 0 when the model is built (and any value at the evaluation points)
+    def a0(m, i):
+        return 0.0 if any(i in later for later in nests[m + 1:]) and not any(i in earlier for earlier in nests[:m]) else 1.0
+    al = [{i: B(f'A{m + 1}_{i}', a0(m, i)) for i in n} for m, n in enumerate(nests)]
 
     def obj():
         return NestsForCrossNestedLogit(list(ids), tuple(OneNestForCrossNestedLogit(mus[m], dict(al[m])) for m in range(len(nests))))
